@@ -466,6 +466,19 @@ func (g *Gen) intCall(d int) *X {
 			return Call("NilMask", TInt, arg("nm0"), arg("nm1"), arg("nm2"))
 		}},
 		{1, func() *X {
+			// a METHOD with interface parameters: nil after a non-nil argument
+			arg := func(l string) *X {
+				switch g.pick(4, l) {
+				case 0, 1:
+					return LitNil()
+				case 2:
+					return g.Expr(TInt, d-1)
+				}
+				return g.str(d - 1)
+			}
+			return &X{K: "method", Name: "Mask", A: []*X{g.elemRecv(d - 1), arg("mk0"), arg("mk1"), arg("mk2")}, Ty: TInt}
+		}},
+		{1, func() *X {
 			os := []*X{LitNil(), Var("P", TPElem), Field(Var("N", TNested), "PE", TPElem)}
 			if g.Excl["nil-to-pointer-param"] {
 				os = os[1:] // known finding F30: a literal nil for a pointer parameter fails inside reflect.Call
@@ -577,7 +590,13 @@ func (g *Gen) elemRecv(d int) *X {
 			return &X{K: "ptr", Ty: g.Clos[len(g.Clos)-1]}
 		}
 	}
-	switch g.pick(5, "recv") {
+	switch g.pick(7, "recv") {
+	case 5, 6:
+		// longer member chains: P.Next.Next, N.PE.Next ... (a nil link in the middle fails at the NEXT member)
+		if d > 0 {
+			return Field(g.elemRecv(d-1), "Next", TPElem)
+		}
+		return Var("P", TPElem)
 	case 0:
 		return Var("P", TPElem)
 	case 1:
